@@ -374,7 +374,9 @@ impl Prop for C16 {
 fn gen_tree(rng: &mut Rng, root: &Path, allow_big: bool) -> BTreeMap<String, Vec<u8>> {
     // relative paths (as given to `create`) -> content
     let mut files = BTreeMap::new();
-    let n = rng.range(1, 6);
+    // 1-6 files; one tree in twelve holds 70..150 tiny files in one directory (more than any pool of open files)
+    let crowd = rng.chance(1, 12);
+    let n = if crowd { rng.range(70, 150) } else { rng.range(1, 6) };
     for i in 0..n {
         let dir = match rng.below(6) {
             0 => "tree".to_string(),
@@ -384,13 +386,20 @@ fn gen_tree(rng: &mut Rng, root: &Path, allow_big: bool) -> BTreeMap<String, Vec
             3 => "tree/ünï".to_string(),
             _ => format!("tree/d{i}"),
         };
-        let name = match rng.below(4) {
+        let name = match if crowd { 9 } else { rng.below(6) } {
+            // names at the lengths where tar headers change form: 100 / 101 / 155 / 255 bytes, no separator inside
+            4 => format!("{}{i}", "n".repeat(*rng.pick(&[99usize, 100, 154, 200, 253]) - 1)),
+            5 => format!("q{i}[x]?*.bin"),
             0 => format!("f{i}.txt"),
             1 => format!("файл {i}"),
             2 => format!("f {i} (copy).bin"),
             _ => format!("f{i}"),
         };
-        let size = match rng.below(10) {
+        let size = match if crowd { 9 } else { rng.below(13) } {
+            // exact unit boundaries of size strings and of tar's 512-byte records
+            10 => *rng.pick(&[511usize, 512, 513, 1023, 1024, 1025, 1_048_575, 1_048_576, 1_048_577]),
+            11 => 512 * rng.range(1, 40) as usize,
+            12 if allow_big && rng.chance(1, 4) => (9 << 20) + rng.below(8 << 20) as usize,
             0 => 0,
             1 => 128 * 1024 - rng.below(3) as usize,
             2 => 128 * 1024 + rng.below(40) as usize,
@@ -446,7 +455,7 @@ impl Prop for C17 {
         "exploration"
     }
     fn rule(&self) -> String {
-        "run = a seeded file tree (empty files, nested directories, unicode and spaces in names, sizes around 128 KiB and 4 MiB; one tree in three with symbolic links to some of its files - stored as the file behind the link - and half of those with a link to one of its sub-directories, walked like a directory) in a private scratch directory, X25519 key files written in PEM, and a command pipeline of the `mlar` binary built from the working tree: create (seeded layers/level/1..3 recipients; paths given as files, as a directory, or through stdin) then list, list -vv, cat of each file, whole extract, extract of one name, to-tar, and a seeded chain of repair / convert steps to other layer and key choices, re-checked after each step. Model = the file tree: the listing is exactly the given paths; every route returns each file's exact bytes; list -vv shows the true SHA-256 and a size string consistent with the true size; tar entries have the right names, sizes and contents. Key faults: wrong key, missing key for an encrypted archive, key given for an unencrypted archive: the command exits non-zero and leaves no output content (file absent or empty). distinct_nontrivial = distinct (layers, level bucket, recipients, create form, chain of steps, key fault, outcome) signatures.".into()
+        "run = a seeded file tree (empty files, nested directories, unicode and spaces in names, sizes around 128 KiB and 4 MiB, at the unit boundaries 511..513, 1023..1025, 2^20-1..2^20+1, multiples of 512, now and then 9..17 MiB; names of 100 / 101 / 155 / 201 / 254 bytes without a separator and names with glob metacharacters; one tree in twelve with 70..150 tiny files; one tree in three with symbolic links to some of its files - stored as the file behind the link - and half of those with a link to one of its sub-directories, walked like a directory) in a private scratch directory, X25519 key files written in PEM, and a command pipeline of the `mlar` binary built from the working tree: create (seeded layers/level/1..3 recipients; paths given as files, as a directory, or through stdin) then list, list -vv, cat of each file, whole extract, extract of one name, to-tar, and a seeded chain of repair / convert steps to other layer and key choices, re-checked after each step. Model = the file tree: the listing is exactly the given paths; every route returns each file's exact bytes; list -vv shows the true SHA-256 and a size string consistent with the true size; tar entries have the right names, sizes and contents. Key faults: wrong key, missing key for an encrypted archive, key given for an unencrypted archive: the command exits non-zero and leaves no output content (file absent or empty). distinct_nontrivial = distinct (layers, level bucket, recipients, create form, chain of steps, key fault, outcome) signatures.".into()
     }
     fn assumptions(&self) -> Vec<String> {
         vec![
@@ -599,8 +608,12 @@ impl Prop for C17 {
                     other => v.push(Violation::new("cli-verbose-listing", "hash", format!("{what}: list -vv line for {name:?}: {other:?}, expected hash {h}"))),
                 }
             }
-            // cat each file
-            for (name, data) in &files {
+            // cat each file (of a crowd: the first, the last and every twelfth)
+            let nfiles = files.len();
+            for (k, (name, data)) in files.iter().enumerate() {
+                if nfiles > 20 && k % 12 != 0 && k + 1 != nfiles {
+                    continue;
+                }
                 let mut a = vec![s("cat"), s("-i"), cur.clone()];
                 a.extend(key_args.clone());
                 a.push(name.clone());
